@@ -27,4 +27,5 @@ CONF = dict(
  'proved by Flocq error analysis where listed in the evidence theorems, otherwise enforced by the oracle on the sampled range only (named _partial). The drift clause is proved by Flocq error analysis '
  '(Proofs/UnitsFloatProofs.v: six roundings of at most 2^-53 each, no underflow/overflow, one truncation) on the range named in the assumptions; '
  'C18_drift_oracle and C18_drift_add_oracle state that the model meets both drift oracles on all int64 inputs.'),
+    min_cases={'csptp.formulas': 375, 'csptp.interval': 752, 'csptp.recover': 750, 'csptp.time_of_ts': 187, 'csptp.ts_of_time': 937, 'csptp.ts_roundtrip': 750, 'units.drift': 1503, 'units.drift_add': 750, 'units.freq_of_ppm': 250, 'units.ppm_of_freq': 250, 'units.ppm_roundtrip': 750, 'units.timeval': 752},
 )
